@@ -67,6 +67,8 @@ def kinds(s, acc=None):
             acc.add("do")
         if s["pa"]:
             acc.add("cond")
+        if s.get("vdo"):
+            acc.add("mixed-worlds")
     return acc
 
 
